@@ -315,6 +315,7 @@ def main():
     tri = strip_comments(read("src/triangulation.rs"))
     refinement = strip_comments(read("src/delaunay_core/refinement.rs"))
     hull = strip_comments(read("src/delaunay_core/handles/iterators/hull_iterator.rs"))
+    flood = strip_comments(read("src/flood_fill_iterator.rs"))
     out = []
     w = out.append
     w("/- GENERATED by translator/t0.py from /repo's current source — do not edit. -/")
@@ -566,6 +567,61 @@ def main():
         w(f"  {em.e(parse_expr(last))}")
         w("")
     guarded("collinear", collinear)
+
+    # --- RectangleMetric (flood_fill_iterator.rs): statement-level shape check, then a fixed
+    # transliteration (early returns become an if-chain); the comparison predicates inside are
+    # emitted from the parsed conditions
+    def rectmetric():
+        impl = flood[flood.index("impl<S> RectangleMetric<S>", flood.index("fn distance_to_point(&self, point: Point2<S>) -> S {\n        if self.is_empty()")):]
+        _, b_empty = find_fn(impl, "is_empty")
+        _, b_inside = find_fn(impl, "is_point_inside")
+        _, b_edges = find_fn(impl, "edges")
+        em = Emit({"self.lower.x": "lower.x", "self.lower.y": "lower.y", "self.upper.x": "upper.x", "self.upper.y": "upper.y"})
+        w("/-- `RectangleMetric::is_empty` -/")
+        w(f"def rect_is_empty (lower upper : Pt) : Bool := {em.e(parse_expr(b_empty))}")
+        want = re.sub(r"\s+", "", "point.all_component_wise(self.lower, |a, b| a >= b) && point.all_component_wise(self.upper, |a, b| a <= b)")
+        if re.sub(r"\s+", "", b_inside) != want:
+            raise ValueError("is_point_inside: unexpected shape")
+        w("/-- `RectangleMetric::is_point_inside` (`all_component_wise` unfolded) -/")
+        w("def rect_is_point_inside (lower upper point : Pt) : Bool :=")
+        w("  ((FL.ge point.x lower.x) && (FL.ge point.y lower.y)) && ((FL.le point.x upper.x) && (FL.le point.y upper.y))")
+        want = re.sub(r"\s+", "", """let lower = self.lower; let upper = self.upper; let v0 = lower;
+            let v1 = Point2::new(lower.x, upper.y); let v2 = upper; let v3 = Point2::new(upper.x, lower.y);
+            [[v0, v1], [v1, v2], [v2, v3], [v3, v0]]""")
+        if re.sub(r"\s+", "", b_edges) != want:
+            raise ValueError("edges: unexpected shape")
+        body = find_fn(flood[flood.index("impl<S> DistanceMetric<S> for RectangleMetric<S>"):], "is_edge_inside")[1]
+        want = re.sub(r"\s+", "", """if self.is_empty() { return false; }
+            let [from, to] = points;
+            if self.is_point_inside(from) || self.is_point_inside(to) { return true; }
+            if self.lower == self.upper {
+                return math::side_query(from, to, self.lower).is_on_line()
+                    && math::project_point(from, to, self.lower).is_on_edge();
+            }
+            if from.x.max(to.x) < self.lower.x || from.x.min(to.x) > self.upper.x
+                || from.y.max(to.y) < self.lower.y || from.y.min(to.y) > self.upper.y { return false; }
+            let corner_queries = self.edges().map(|[corner, _]| math::side_query(from, to, corner));
+            let is_separated = corner_queries.iter().all(|q| q.is_on_left_side())
+                || corner_queries.iter().all(|q| q.is_on_right_side());
+            !is_separated""")
+        if re.sub(r"\s+", "", body) != want:
+            raise ValueError("is_edge_inside: unexpected shape")
+        w("/-- `RectangleMetric::is_edge_inside` (statement-level transliteration; the corners are the first")
+        w("    points of `edges()`: lower, (lower.x, upper.y), upper, (upper.x, lower.y)) -/")
+        w("def rect_is_edge_inside (lower upper from_ to_ : Pt) : Bool :=")
+        w("  if rect_is_empty lower upper then false")
+        w("  else if rect_is_point_inside lower upper from_ || rect_is_point_inside lower upper to_ then true")
+        w("  else if lower == upper then")
+        w("    is_on_line (side_query from_ to_ lower) &&")
+        w("      is_on_edge (project_point from_ to_ lower).1 (project_point from_ to_ lower).2")
+        w("  else if FL.lt (max from_.x to_.x) lower.x || FL.gt (min from_.x to_.x) upper.x ||")
+        w("      FL.lt (max from_.y to_.y) lower.y || FL.gt (min from_.y to_.y) upper.y then false")
+        w("  else")
+        w("    let qs := [side_query from_ to_ lower, side_query from_ to_ ⟨lower.x, upper.y⟩,")
+        w("      side_query from_ to_ upper, side_query from_ to_ ⟨upper.x, lower.y⟩]")
+        w("    !(qs.all is_on_left_side || qs.all is_on_right_side)")
+        w("")
+    guarded("RectangleMetric", rectmetric)
 
     # --- triangulation.rs size functions
     def sizes():
